@@ -146,6 +146,7 @@ def _leaf_fromto(x):
 def run(ctx):
     ctx.attempt(_r1)
     ctx.attempt(_r2)
+    ctx.attempt(_r3)
 
 
 def _identities(ctx, fi_of, vals, label, case):
@@ -418,6 +419,136 @@ def _r2(ctx):
                          (name, "x*y" if op is ast.Mult else "x+y", skip))
 
 
+def _r3(ctx):
+    """Re-binning: the overlap share telescopes (=> conservation for every gap-free covering binning);
+    combination by sum."""
+    from ..domains import weak_orderings
+    prog = ctx.prog
+    ctx.rule("R-C14-3", floor=4, what="overlap-proportional redistribution telescopes: share == (clamp(right) - clamp(left)) / source length")
+    H = "pylife.utils.histogram:"
+    f = prog.functions.get(H + "_do_rebin_histogram.interval_overlap")
+    agg = prog.functions.get(H + "_do_rebin_histogram.aggregate_hist")
+    if f is None or agg is None:
+        raise AnalysisError("rebin helpers interval_overlap / aggregate_hist not found")
+    ref, test = f.params
+    ov = [s_ for s_ in f.node.body if isinstance(s_, ast.Assign) and isinstance(s_.targets[0], ast.Name)]
+    ret = [s_ for s_ in f.node.body if isinstance(s_, ast.Return)][-1]
+    if len(ov) != 1:
+        raise AnalysisError("interval_overlap: overlap definition not found")
+
+    def leaf(x):
+        if isinstance(x, ast.Attribute) and isinstance(x.value, ast.Name) and x.value.id in (ref, test):
+            who = "t" if x.value.id == ref else "s"      # target bin / source interval
+            if x.attr in ("left", "right"):
+                return who + x.attr[0]
+            if x.attr == "length":
+                return RF.sym(who + "r") - RF.sym(who + "l")
+        if isinstance(x, ast.Name) and x.id == ov[0].targets[0].id:
+            return None
+        return None
+    syms = ["sl", "sr", "tl", "tr"]
+    n_cases = 0
+    bad = None
+    for ranks in weak_orderings(4):
+        val = dict(zip(syms, ranks))
+        if not (val["sl"] < val["sr"] and val["tl"] < val["tr"]):
+            continue
+        n_cases += 1
+        # symbols tied in this ordering denote the same number: use one representative per rank
+        canon = {}
+        for k in syms:
+            canon[k] = [x for x in syms if val[x] == val[k]][0]
+
+        def leaf_c(x, canon=canon):
+            r = leaf(x)
+            if isinstance(r, str):
+                return canon[r]
+            if isinstance(r, RF):
+                who = "t" if (isinstance(x, ast.Attribute) and isinstance(x.value, ast.Name) and x.value.id == ref) else "s"
+                return RF.sym(canon[who + "r"]) - RF.sym(canon[who + "l"])
+            return r
+
+        def order(a, b, val=val):
+            d = a - b
+            if d.is_zero():
+                return 0
+            # difference of two symbols (or symbol and itself): decide by ranks
+            if d.den.as_const() is None:
+                return None
+            terms = {dict(m).popitem()[0] if m else None: c for m, c in d.num.terms.items()}
+            if set(terms) <= set(syms) and len(terms) == 2:
+                (x, cx), (y, cy) = terms.items()
+                if cx == -cy:
+                    pos, neg = (x, y) if cx > 0 else (y, x)
+                    return (val[pos] > val[neg]) - (val[pos] < val[neg])
+            return None
+        tr = Translator(atom=leaf_c, order=order, positive=lambda x: None)
+        try:
+            overlap = tr.tr(ov[0].value)
+            share = Translator(atom=lambda x: (overlap if isinstance(x, ast.Name) and x.id == ov[0].targets[0].id else leaf_c(x)),
+                               order=order).tr(ret.value)
+        except NFUnsupported as e:
+            raise AnalysisError("interval_overlap outside the fragment: %s" % e)
+
+        def clamp(name):
+            v = val[name]
+            if v <= val["sl"]:
+                return RF.sym(canon["sl"])
+            if v >= val["sr"]:
+                return RF.sym(canon["sr"])
+            return RF.sym(canon[name])
+        tele = (clamp("tr") - clamp("tl")) / (RF.sym(canon["sr"]) - RF.sym(canon["sl"]))
+        overlaps = max(val["sl"], val["tl"]) < min(val["sr"], val["tr"])
+        if overlaps and not (share == tele):
+            bad = (val, share, tele)
+            break
+        if not overlaps and not tele.is_zero():
+            bad = (val, "not overlapping", tele)
+            break
+    if bad is None:
+        ctx.holds(f, ret, "share of a source interval falling into a bin == (clamp(bin.right) - clamp(bin.left)) / source length on "
+                  "all %d orderings: shares of adjacent bins telescope to 1 for every covering gap-free binning" % n_cases)
+    else:
+        ctx.violated(f, ret, "overlap share %s does not telescope (ordering %s: expected %r): re-binning would not conserve the total"
+                     % (bad[1], bad[0], bad[2]), text="overlap share")
+    # aggregation: value * share(interval, source interval), summed over the overlapping source intervals
+    lam = [n for n in ast.walk(agg.node) if isinstance(n, ast.Lambda)]
+    ok = False
+    if lam:
+        b = lam[0].body
+        v = lam[0].args.args[0].arg
+        ok = isinstance(b, ast.BinOp) and isinstance(b.op, ast.Mult) and any(
+            isinstance(x, ast.Call) and call_name(x) == f.name and len(x.args) == 2 and
+            norm_text(x.args[0]) == agg.params[0] and norm_text(x.args[1]) == v + ".name" for x in (b.left, b.right)) and \
+            any(norm_text(x).startswith(v + ".iloc[0]") for x in (b.left, b.right))
+        r = [s_ for s_ in agg.node.body if isinstance(s_, ast.Return)][-1]
+        ok = ok and isinstance(r.value, ast.Call) and isinstance(r.value.func, ast.Attribute) and r.value.func.attr == "sum"
+        sel = [s_ for s_ in agg.node.body if isinstance(s_, ast.Assign) and "overlaps" in norm_text(s_.value)]
+        ok = ok and bool(sel)
+    if ok:
+        ctx.holds(agg, agg.node, "bin content = sum over overlapping source intervals of value * share(bin, source)")
+    else:
+        ctx.violated(agg, agg.node, "re-binned bin content is not the sum of value * share over the overlapping source intervals",
+                     text="aggregate")
+    # validity of the binning: gap-free and non-overlapping is enforced
+    fb = prog.func(H + "_fail_if_binning_invalid")
+    raises = [norm_text(s_.test) for s_ in fb.node.body if isinstance(s_, ast.If) and isinstance(s_.body[-1], ast.Raise)]
+    if any("has_gaps" in t for t in raises) and any("overlapping" in t for t in raises):
+        ctx.holds(fb, fb.node, "binnings with gaps or overlaps are rejected")
+    else:
+        ctx.violated(fb, fb.node, "binnings with gaps or overlaps are no longer rejected: shares would not sum to one", text="binning validation")
+    cb = prog.func(H + "combine_histogram")
+    c = [c_ for c_ in calls_in(cb.node) if isinstance(c_.func, ast.Attribute) and c_.func.attr == "agg"]
+    dflt = dict(zip(cb.params[-len(cb.node.args.defaults):], cb.node.args.defaults)).get("method")
+    ok = len(c) == 1 and norm_text(c[0].args[0]) == "method" and const_value(dflt) == "sum" and \
+        "groupby(concat.index)" in norm_text(c[0].func.value) and any(call_name(x) == "pd.concat" for x in calls_in(cb.node))
+    if ok:
+        ctx.holds(cb, c[0], "combination: concatenated histograms aggregated per class with the requested method (default sum)")
+    else:
+        ctx.violated(cb, c[0] if c else cb.node, "combine_histogram does not aggregate the concatenated histograms per class with the "
+                     "requested method (default 'sum')", text="combine")
+
+
 # =========================================================================== variants
 
 CP = "src/pylife/stress/collective/load_collective.py"
@@ -523,6 +654,48 @@ def variants():
             return True
         return False
     out.append(witness("histogram shift moves the range level", HP, shift_range, "R-C14-2"))
+
+    HIS = "src/pylife/utils/histogram.py"
+
+    def _inner(tree, outer, name):
+        f = find_func(tree, outer)
+        return [n for n in ast.walk(f) if isinstance(n, ast.FunctionDef) and n.name == name][0]
+
+    def share_ref(tree):
+        f = _inner(tree, "_do_rebin_histogram", "interval_overlap")
+        f.body[-1].value = parse_expr("overlap / reference_interval.length")
+        return True
+    out.append(witness("share divided by the target bin's length", HIS, share_ref, "R-C14-3"))
+
+    def share_minmax(tree):
+        f = _inner(tree, "_do_rebin_histogram", "interval_overlap")
+        f.body[0].value = parse_expr("max(reference_interval.right, test_interval.right) - max(reference_interval.left, test_interval.left)")
+        return True
+    out.append(witness("overlap with max of the right edges", HIS, share_minmax, "R-C14-3"))
+
+    def agg_mean(tree):
+        f = _inner(tree, "_do_rebin_histogram", "aggregate_hist")
+        f.body[-1].value.func.attr = "mean"
+        return True
+    out.append(witness("bin content = mean of the contributions", HIS, agg_mean, "R-C14-3"))
+
+    def no_gap_check(tree):
+        f = find_func(tree, "_fail_if_binning_invalid")
+        f.body = [s for s in f.body if not (isinstance(s, ast.If) and "has_gaps" in norm_text(s.test))]
+        return True
+    out.append(witness("binning with gaps accepted", HIS, no_gap_check, "R-C14-3"))
+
+    def combine_max(tree):
+        f = find_func(tree, "combine_histogram")
+        f.args.defaults[-1] = ast.Constant("max")
+        return True
+    out.append(witness("combine_histogram defaults to max", HIS, combine_max, "R-C14-3"))
+
+    def share_alt(tree):
+        f = _inner(tree, "_do_rebin_histogram", "interval_overlap")
+        f.body[0].value = parse_expr("min(test_interval.right, reference_interval.right) - max(test_interval.left, reference_interval.left)")
+        return True
+    out.append(twin("overlap with swapped min/max operands", HIS, share_alt))
 
     # twins
     def amp_alt(tree):
